@@ -209,6 +209,15 @@ TUciRep ==
              ELSE TRUE
   /\ UNCHANGED <<gvars, rootBad>>
 
+\* `position fen F moves <text>`: a move text is applied iff it denotes a pseudo-legal move of F (C05 through the GUI)
+TUciMoves ==
+  /\ IsEvent("uciMoves")
+  /\ LET ev == Trace[l] root == PosOfJson(ev.root) want == PseudoEnc(root) got == ToSet(ev.acc) IN
+       /\ Expect(FenOf(root) = ev.fen /\ Valid(root), ev, "INFRA/fen-projection", "", [fen |-> ev.fen])
+       /\ Expect(got = want, ev, "C05/uci-move-acceptance", "", [fen |-> ev.fen, acceptedNotPseudoLegal |-> got \ want, pseudoLegalNotAccepted |-> want \ got])
+       /\ Expect(ev.p1 = 0, ev, "C05/uci-malformed-move-accepted", "", [fen |-> ev.fen, n |-> ev.p1])
+  /\ UNCHANGED <<gvars, rootBad>>
+
 \* the driver's perft command: leaf counts at depth 1 and 2 are the specification's
 RECURSIVE PerftS(_, _)
 PerftS(p, d) == IF d = 0 THEN 1 ELSE LET lg == Legal(p) IN
@@ -237,7 +246,7 @@ TPanic ==
   /\ UNCHANGED <<gvars, rootBad>>
 
 TInit == GInit /\ l = 1 /\ rootBad = FALSE
-TNext == TLoad \/ TMake \/ TNullMake \/ TUndo("undo") \/ TUndo("nullundo") \/ TTransp \/ TUciPosition \/ TUciRep \/ TPanic \/ TBalanced \/ TUciPerft
+TNext == TLoad \/ TMake \/ TNullMake \/ TUndo("undo") \/ TUndo("nullundo") \/ TTransp \/ TUciPosition \/ TUciRep \/ TPanic \/ TBalanced \/ TUciPerft \/ TUciMoves
 
 \* printed once at the end: how far the trace was consumed
 Done == PrintT("DONE " \o ToString(TLCGet("stats").diameter - 1) \o " " \o ToString(Len(Trace)))
